@@ -186,3 +186,52 @@ func VH_C12_seq() {
 	}
 	v.Cover("all-accepted")
 }
+
+// VH_C12_deep: the same differential check below a concrete chain of nested directories whose
+// depth is a solver-chosen value (the validator's stack of open directories grows with depth, so
+// depth-dependent bookkeeping is exercised at every depth up to MAXD): after the chain, K entries
+// with a symbolic one-byte name each, placed in the deepest chain directory or in the directory
+// accepted last, are accepted exactly when the reference acceptor accepts them.
+func VH_C12_deep() {
+	maxd, k := v.Param("MAXD", 12), v.Param("K", 3)
+	depth := 1 + v.Choose("depth", maxd)
+	var val Validator
+	var spec specValidator
+	prefix := ""
+	for i := 0; i < depth; i++ {
+		if i > 0 {
+			prefix += "/"
+		}
+		prefix += "d"
+		err := val.HandleChange(ChangeKindAdd, prefix, statInfoFor(true), nil)
+		v.Assert(err == nil && spec.accept(prefix, true, false), "a chain of nested directories is accepted")
+		if err != nil {
+			return
+		}
+	}
+	lastDir := prefix
+	for i := 0; i < k; i++ {
+		base := prefix
+		if lastDir != prefix && v.Bool("below-last") {
+			base = lastDir
+		}
+		p := base + "/" + v.String("name", 1)
+		isDir := v.Bool("dir")
+		err := val.HandleChange(ChangeKindAdd, p, statInfoFor(isDir), nil)
+		want := spec.accept(p, isDir, false)
+		v.Observe("accepted", err == nil)
+		if want {
+			v.Cover("spec-accepts")
+		} else {
+			v.Cover("spec-rejects")
+		}
+		v.Assert((err == nil) == want, "validator accepts exactly what the reference acceptor accepts (deep tree)")
+		if err != nil || !want {
+			return
+		}
+		if isDir {
+			lastDir = p
+		}
+	}
+	v.Cover("all-accepted")
+}
